@@ -629,7 +629,7 @@ func replayTestSource(pkgName string, entries []string) string {
 	return sb.String()
 }
 
-var entryRe = regexp.MustCompile(`(?m)^func (Verif[A-Za-z0-9_]+)\(\)`)
+var entryRe = regexp.MustCompile(`(?m)^func (VerifC[0-9][A-Za-z0-9_]+)\(\)`)
 var pkgRe = regexp.MustCompile(`(?m)^package ([A-Za-z0-9_]+)`)
 
 // nativeReplay runs the harness natively under `go test -overlay` with the
